@@ -221,3 +221,5 @@ Proof.
   - rewrite Z.eqb_refl. cbn [length]. lia.
   - replace (z =? x) with false by (symmetry; apply Z.eqb_neq; exact Hn). exact IH.
 Qed.
+Lemma ist_teilbar_null a : Ist_Teilbar a 0 = Err.
+Proof. reflexivity. Qed.
